@@ -39,6 +39,9 @@ def run_item(item, verbose=False):
     M = _mods()
     hm = harness_module(item["prop"])
     fn = hm.SCENARIOS[item["case"]["h"]]
+    from . import loader as _loader
+
+    _loader.reset_state()
     E = ConcreteEngine(item["values"])
     if verbose:
         E.verbose = True
